@@ -211,6 +211,24 @@ func nodifyTupleType(nodes []Node) Node {
 	return NewTupleType(types)
 }
 
+// nodifyTupleOrStructType makes a structure when the parentheses are
+// followed by a definition (name and members), a tuple otherwise.
+func nodifyTupleOrStructType(nodes []Node) Node {
+	if len(nodes) != 4 {
+		return fmt.Errorf("wrong arguments %+v", nodes)
+	}
+	maybe, ok := nodes[3].([]Node)
+	if !ok || len(maybe) != 1 {
+		return nodifyTupleType(nodes[:3])
+	}
+	definition, ok := maybe[0].([]Node)
+	if !ok || len(definition) != 4 {
+		return fmt.Errorf("wrong type definition %+v", nodes[3])
+	}
+	return nodifyStrucType([]Node{nodes[0], nodes[1], nodes[2],
+		definition[0], definition[1], definition[2], definition[3]})
+}
+
 func nodifyTypeMember(nodes []Node) Node {
 	return nodes[1]
 }
@@ -234,11 +252,10 @@ func init() {
 
 	var arrayType parsec.Parser
 	var mapType parsec.Parser
-	var structType parsec.Parser
-	var tupleType parsec.Parser
+	var tupleOrStructType parsec.Parser
 
 	var declarationType = parsec.OrdChoice(nil,
-		basicType(), &mapType, &arrayType, &structType, &tupleType)
+		basicType(), &mapType, &arrayType, &tupleOrStructType)
 
 	arrayType = parsec.And(nodifyArrayType,
 		parsec.Atom("[", "MapStart"),
@@ -254,19 +271,21 @@ func init() {
 			typeName(),
 		))
 
-	tupleType = parsec.And(nodifyTupleType,
-		parsec.Atom("(", "TypeParameterStart"),
-		&listType,
-		parsec.Atom(")", "TypeParameterClose"))
-
-	structType = parsec.And(nodifyStrucType,
-		parsec.Atom("(", "TypeParameterStart"),
-		&listType,
-		parsec.Atom(")", "TypeParameterClose"),
+	// a structure is a tuple followed by its definition. The members
+	// between the parentheses are parsed once: with one alternative
+	// for the structure and one for the tuple, each parsing them, the
+	// cost of a signature doubled with every level of nesting.
+	var structDefinition = parsec.And(nil,
 		parsec.Atom("<", "TypeDefinitionStart"),
 		structName(),
 		&typeMemberList,
 		parsec.Atom(">", "TypeDefinitionClose"))
+
+	tupleOrStructType = parsec.And(nodifyTupleOrStructType,
+		parsec.Atom("(", "TypeParameterStart"),
+		&listType,
+		parsec.Atom(")", "TypeParameterClose"),
+		parsec.Maybe(nil, structDefinition))
 
 	mapType = parsec.And(nodifyMap,
 		parsec.Atom("{", "MapStart"),
